@@ -22,7 +22,15 @@ def b01(x):
 
 
 def dump(fr):
-    """Canonical one-line dump of a decoded frame: the wire-carried fields only."""
+    """Canonical one-line dump of a decoded frame: the wire-carried fields only (a frame object whose fields were never
+    filled in — a half-parsed frame — dumps as HALF-PARSED <type>)."""
+    try:
+        return _dump(fr)
+    except (AttributeError, TypeError, ValueError):
+        return 'HALF-PARSED %s' % type(fr).__name__
+
+
+def _dump(fr):
     if fr is None:
         return 'IGNORED'
     if isinstance(fr, F.InvalidFrame):
